@@ -18,6 +18,7 @@ Require Import Cirbo.Proofs.BuilderFacts Cirbo.Proofs.ArithFacts Cirbo.Proofs.Ar
   Cirbo.Proofs.ArithSum2Facts Cirbo.Proofs.ArithMiscFacts Cirbo.Proofs.ArithDivFacts
   Cirbo.Proofs.ArithSqrtFacts Cirbo.Proofs.ArithGenFacts Cirbo.Proofs.TotalFacts
   Cirbo.Proofs.ArithTotalFacts Cirbo.Proofs.ArithTotalMiscFacts.
+Require Import Cirbo.Model.PyPrims Cirbo.Generated.ArithGen09 Cirbo.Proofs.ArithGen09G.
 Require Import Coq.Logic.FinFun.
 Open Scope Z_scope.
 
@@ -273,6 +274,64 @@ Theorem C09_generate_pairwise_xor : forall fresh k0 xs ys rs c,
   forall asg bs, assigns asg (xs ++ ys) bs ->
     bvals c asg rs (map2 xorb (firstn (length xs) bs) (skipn (length xs) bs)).
 Proof. exact generate_pairwise_xor_correct. Qed.
+
+
+(* ---- the second tie of the generator ALGORITHMS ------------------------------------------------ *)
+(* Translator T14 (translator/t14_arith_gen.py) regenerates, on every run, each add_* generator and each
+   generate_* wrapper of the property from the STATEMENTS of its Python source as gen_<name>
+   (Generated/ArithGen09.v: loops as folds in the builder monad, list stores / appends / reversals, Python
+   indexing and slicing on Z, the cells and tables of T4, the builder primitives for the uuid labels and
+   add_gate / emplace_gate / mark_as_output).  Each of them runs exactly like the hand model the theorems above
+   are about: same result, same final state, same error -- for every argument, every host state and every naming
+   function.  py_bare_labels n = [str(0); ...; str(n-1)] are the inputs of Circuit.bare_circuit(n);
+   gen__generate_labels p n = [p_0; ...; p_(n-1)] is the regenerated _generate_labels.  The only side condition:
+   a negative size_of_input_a is a Python slice from the end, which the nat parameter of the hand model cannot
+   express (Proofs/ArithGen09G.v: generate_sub_negative_size_differs). *)
+Theorem C09_generators_regenerated :
+  (forall a b be fresh s,
+     run fresh (gen_add_sub_two_numbers a b be) s = run fresh (add_sub_two_numbers a b be) s) /\
+  (forall a b be fresh s,
+     run fresh (gen_add_subtract_with_compare a b be) s = run fresh (add_subtract_with_compare a b be) s) /\
+  (forall a b be fresh s,
+     run fresh (gen_add_div_mod a b be) s = run fresh (add_div_mod a b be) s) /\
+  (forall x be fresh s,
+     run fresh (gen_add_sqrt x be) s = run fresh (add_sqrt x be) s) /\
+  (forall x num fresh s,
+     run fresh (gen_add_equal x num) s = run fresh (add_equal x num) s) /\
+  (forall x res ao be fresh s,
+     run fresh (gen_add_plus_one x res ao be) s = run fresh (add_plus_one x res ao be) s) /\
+  (forall i t e res ao fresh s,
+     run fresh (gen_add_if_then_else i t e res ao) s = run fresh (add_if_then_else i t e res ao) s) /\
+  (forall is_ ts es res ao fresh s,
+     run fresh (gen_add_pairwise_if_then_else is_ ts es res ao) s
+     = run fresh (add_pairwise_if_then_else is_ ts es res ao) s) /\
+  (forall xs ys res ao fresh s,
+     run fresh (gen_add_pairwise_xor xs ys res ao) s = run fresh (add_pairwise_xor xs ys res ao) s) /\
+  (* the generate_* wrappers, on the input labels the source builds *)
+  (forall fresh k0 sa sb be, 0 <= sa ->
+     gen_generate_sub_two_numbers fresh k0 sa sb be
+     = generate_sub_two_numbers fresh k0 (py_bare_labels (sa + sb)) (Z.to_nat sa) be) /\
+  (forall fresh k0 n be,
+     gen_generate_div_mod fresh k0 n be = generate_div_mod fresh k0 (py_bare_labels (2 * n)) (Z.to_nat n) be) /\
+  (forall fresh k0 n be,
+     gen_generate_sqrt fresh k0 n be = generate_sqrt fresh k0 (py_bare_labels n) be) /\
+  (forall fresh k0 n num,
+     gen_generate_equal fresh k0 n num = generate_equal fresh k0 (py_bare_labels n) num) /\
+  (forall fresh k0 il ol be,
+     gen_generate_plus_one fresh k0 il ol be
+     = generate_plus_one fresh k0 (rev_if be (gen__generate_labels "x" il))
+         (rev_if be (gen__generate_labels "z" ol)) be) /\
+  (forall fresh k0,
+     gen_generate_if_then_else fresh k0 = generate_if_then_else fresh k0 "if" "then" "else" "if_then_else") /\
+  (forall fresh k0 n,
+     gen_generate_pairwise_if_then_else fresh k0 n
+     = generate_pairwise_if_then_else fresh k0 (gen__generate_labels "if" n) (gen__generate_labels "then" n)
+         (gen__generate_labels "else" n) (gen__generate_labels "if_then_else" n)) /\
+  (forall fresh k0 n,
+     gen_generate_pairwise_xor fresh k0 n
+     = generate_pairwise_xor fresh k0 (gen__generate_labels "x" n) (gen__generate_labels "y" n)
+         (gen__generate_labels "xor" n)).
+Proof. exact generators_regenerated. Qed.
 
 (* ---- non-vacuity: the generators do return Ok ---------------------------------------- *)
 Example C09_example_runs :
